@@ -4,6 +4,8 @@ set -u
 T=/tmp/trial
 d="$1"; shift
 git -C $T/repo checkout -q -- . 
+# PRE_PATCH: a change still to be committed to /repo (e.g. a pending fix) that the seeded change goes on top of
+[ -n "${PRE_PATCH:-}" ] && git -C $T/repo apply "$PRE_PATCH"
 git -C $T/repo apply "$d/patch.diff" || { echo "patch does not apply"; exit 2; }
 ( cd $T/harness && CARGO_NET_OFFLINE=true cargo build --offline --profile checked > $T/build.log 2>&1 ) || { echo "build failed"; tail -5 $T/build.log; git -C $T/repo checkout -q -- .; exit 2; }
 for id in "$@"; do
@@ -12,4 +14,5 @@ for id in "$@"; do
     grep -a "signature=" "$T/out/seeded_$id.out" | grep -av "KNOWN-FINDING" | sed 's/^ *//' | cut -c1-220 | head -8
 done
 git -C $T/repo checkout -q -- .
+[ -n "${PRE_PATCH:-}" ] && git -C $T/repo apply "$PRE_PATCH"
 rm -f $T/out/replays/*
